@@ -384,6 +384,8 @@ func (c *Cache) forEachMatch(p []string, cb func(e *EventSubscription)) {
 		for _, p := range patterns {
 			if p.Match(resourceName) {
 				cb(eventSub)
+				// Call once per resource, even if multiple patterns match
+				break
 			}
 		}
 	}
